@@ -652,7 +652,16 @@ func (e *vfE4Env) execOnly(w []string) (string, bool) {
 		out = fmt.Sprintf("status=%d", code)
 	case "stream":
 		id, _ := strconv.Atoi(w[2])
-		out = e.stream(id, vfE4Unhex(w[3]))
+		var splits []int
+		for _, tok := range w[4:] {
+			if strings.HasPrefix(tok, "split=") {
+				for _, x := range strings.Split(tok[6:], ",") {
+					n, _ := strconv.Atoi(x)
+					splits = append(splits, n)
+				}
+			}
+		}
+		out = e.stream(id, vfE4Unhex(w[3]), splits...)
 	case "spoof":
 		// spoof <id> <victim> <keys> <bc> <ho> <ve> <tcp> <http> <rest>
 		id, _ := strconv.Atoi(w[2])
@@ -698,12 +707,21 @@ func (e *vfE4Env) execOnly(w []string) (string, bool) {
 
 // stream: a fresh raw connection sends the bytes, half-closes, and collects every reply frame
 // until the server closes.
-func (e *vfE4Env) stream(id int, data []byte) string {
+func (e *vfE4Env) stream(id int, data []byte, splits ...int) string {
 	vc := e.open(id, false)
 	addr := vc.addr
 	vc.c.SetDeadline(time.Now().Add(vfE4IOTimeout))
 	go func() {
-		vc.c.Write(data)
+		// optional split points: the bytes arrive in several TCP segments with a pause in between
+		prev := 0
+		for _, sp := range splits {
+			if sp > prev && sp < len(data) {
+				vc.c.Write(data[prev:sp])
+				time.Sleep(15 * time.Millisecond)
+				prev = sp
+			}
+		}
+		vc.c.Write(data[prev:])
 		vc.c.(*net.TCPConn).CloseWrite()
 	}()
 	var replies []string
@@ -758,14 +776,18 @@ func (e *vfE4Env) streamK(id int, data []byte, k int) string {
 	return "fin=closed replies=" + strings.Join(replies, ",")
 }
 
-// vfE4Decode: what encoding/json makes of an IDENTIFY body (the model takes it as an input).
+// vfE4Decode: what the JSON VALUE PARSER makes of an IDENTIFY body: the first value (as PeerInfo
+// fields) and the number of bytes it occupies. Whether what follows the value is acceptable is
+// NOT decided here — the model does that (only white space may follow), so a daemon that accepts
+// `{…}}}` or leaves `{…}REGISTER x` half-read disagrees with the model.
 func vfE4Decode(body []byte) string {
 	pi := PeerInfo{}
-	if json.Unmarshal(body, &pi) != nil {
+	dec := json.NewDecoder(bytes.NewReader(body))
+	if dec.Decode(&pi) != nil {
 		return ""
 	}
-	return fmt.Sprintf("%s=%s/%s/%s/%d/%d", vfHex(body), vfHex([]byte(pi.BroadcastAddress)),
-		vfHex([]byte(pi.Hostname)), vfHex([]byte(pi.Version)), pi.TCPPort, pi.HTTPPort)
+	return fmt.Sprintf("%s=%s/%s/%s/%d/%d/%d", vfHex(body), vfHex([]byte(pi.BroadcastAddress)),
+		vfHex([]byte(pi.Hostname)), vfHex([]byte(pi.Version)), pi.TCPPort, pi.HTTPPort, dec.InputOffset())
 }
 
 func vfE4PrintHist(tag string, h map[string]int) {
